@@ -1,2 +1,230 @@
-/- Oracle for C18 (stub: replaced when the property's model is built). -/
-def main : IO Unit := pure ()
+/-
+  Oracle for C18.  Reads the harness' lines (harness/cmd/c18):
+    M <json>     machine description (echoed)
+    K <facts>    rsize=<n> so=<kind,..> procs=<n>/<m>/<l>/<cap.cap>/<so.so>;...
+    W …          outcome of Write_verilog (echoed)
+    T / P        test benches excluded / reader errors (echoed)
+    Q <module>…  opaque modules (defined in files the reader could not parse)
+    X <module>…  named external-IP allow-list
+    V <sexp>     the parsed file set
+    E            end of machine
+  and prints per machine, after the echoed lines:
+    R <class>|<module>|<message>      one per finding of `Source.check` (BMV.Vlog.Check: per-module
+                                      [undeclared]/[undefined-module]/[port], then `elaborate` +
+                                      `Design.lint` with every module as a root)
+    R port-order|bondmachine|…        the positional connection of a shared object's instance does not
+                                      follow the port order of its module (model BMV.So)
+    N modules=<n> elaborated=<k> roots=<..>
+    S ok <comparisons> | S diff <what>   shared-object header model against the parsed text
+    S skip <why>                         (unmodelled kind / module not parsed)
+    E
+-/
+import BMV.Lines
+import BMV.Vlog.Check
+import BMV.So
+open BMV BMV.Lines BMV.Vlog BMV.So
+
+structure ProcFacts where
+  n : Nat
+  m : Nat
+  l : Nat
+  caps : List String
+  links : List Nat
+deriving Repr, Inhabited
+
+structure Facts where
+  rsize : Nat := 8
+  sos : List String := []
+  procs : List ProcFacts := []
+deriving Repr, Inhabited
+
+def dotList (s : String) : List String := if s = "" then [] else s.splitOn "."
+
+def parseFacts (line : String) : Facts :=
+  let fs := fields line
+  let rsize := nat! ((kv fs "rsize").getD "8")
+  let sos := commaList ((kv fs "so").getD "")
+  let ps := (kv fs "procs").getD ""
+  let procs := (if ps = "" then [] else ps.splitOn ";").map fun p =>
+    match p.splitOn "/" with
+    | [n, m, l, caps, links] => { n := nat! n, m := nat! m, l := nat! l, caps := dotList caps, links := (dotList links).map nat! }
+    | _ => { n := 0, m := 0, l := 0, caps := [], links := [] }
+  { rsize, sos, procs }
+
+structure St where
+  facts : Option Facts := none
+  opq : List String := []
+  ext : List String := []
+  src : Option String := none
+
+def capsOf (k : Kind) (caps : List String) : Caps :=
+  match k with
+  | .queue => ⟨caps.contains "r2q", caps.contains "q2r"⟩
+  | .stack => ⟨caps.contains "r2t", caps.contains "t2r"⟩
+  | _ => ⟨false, false⟩
+
+def countBefore (l : List String) (i : Nat) (x : String) : Nat := ((l.take i).filter (· == x)).length
+
+/-- positional connections of an instance, as identifier names (`?` for anything else) -/
+def instConns (m : Module) (inst : String) : Option (List String) :=
+  m.items.findSome? fun it => match it with
+    | .inst _ n _ (.positional es) =>
+      if n == inst then some (es.map fun e => match e with | some (.id x) => x | _ => "?") else none
+    | _ => none
+
+/-- declared direction and width (constant ranges only) of a name in a module -/
+def declInfo (m : Module) (name : String) : Option (Dir × Option Nat) :=
+  let hits := m.items.filterMap fun it => match it with
+    | .decl d =>
+      if d.names.any (·.name == name) then
+        let w : Option Nat := match d.range with
+          | none => some 1
+          | some ⟨.num _ a, .num _ b⟩ => if a ≥ b then some (a - b + 1) else none
+          | _ => none
+        some (d.dir, w)
+      else none
+    | _ => none
+  -- a port may be declared twice (`output x; reg x;`): the declaration with a direction wins
+  match hits.find? (·.1 != .none) with
+  | some h => some h
+  | none => hits.head?
+
+structure Tie where
+  cmp : Nat := 0
+  diffs : Array String := #[]
+  skips : Array String := #[]
+  order : Array String := #[]
+
+def Tie.eqList (t : Tie) (what : String) (got want : List String) : Tie :=
+  if got == want then { t with cmp := t.cmp + 1 }
+  else { t with cmp := t.cmp + 1, diffs := t.diffs.push s!"{what}: emitted {got} model {want}" }
+
+def Tie.decl (t : Tie) (m : Module) (name : String) (dir : Option Dir) (w : Nat) : Tie :=
+  match declInfo m name with
+  | none => { t with cmp := t.cmp + 1, diffs := t.diffs.push s!"{m.name}: {name} is not declared" }
+  | some (d, gw) =>
+    let okDir := match dir with | none => true | some x => x == d
+    if okDir && gw == some w then { t with cmp := t.cmp + 1 }
+    else { t with cmp := t.cmp + 1, diffs := t.diffs.push s!"{m.name}: {name} declared {repr d} width {gw}, model {repr dir} width {w}" }
+
+def soTie (src : Source) (f : Facts) : Tie := Id.run do
+  let mut t : Tie := {}
+  let find (n : String) := findModule src.modules n
+  let kindName (so : Nat) : String := f.sos.getD so "?"
+  let top := find "bondmachine"
+  -- (A) processors: aN / pN port lists and the aN_inst connection list
+  let mut i := 0
+  for p in f.procs do
+    let kinds := p.links.map fun so => Kind.ofName? (kindName so)
+    if kinds.any (·.isNone) then
+      if !p.links.isEmpty then t := { t with skips := t.skips.push s!"processor {i}: attached to an unmodelled kind" }
+    else
+      let linkNames := p.links.map kindName
+      let mut archExp : List String := []
+      let mut topExp : List String := []
+      let mut archDecl : List (String × Bool × Nat) := []
+      let mut cpDecl : List (String × Bool × Nat) := []
+      let mut topDecl : List (String × Nat) := []
+      let mut j := 0
+      for so in p.links do
+        match Kind.ofName? (kindName so) with
+        | none => pure ()
+        | some k =>
+          let c := capsOf k p.caps
+          let lseq := countBefore linkNames j (kindName so)
+          let gseq := countBefore f.sos so (kindName so)
+          let soName := s!"{k.short}{gseq}"
+          let apfx := s!"{k.short}{lseq}"
+          archExp := archExp ++ (archHeader k c).map (apfx ++ ·)
+          topExp := topExp ++ (perProcHeader k c).map (s!"p{i}{soName}" ++ ·) ++ (cpSharedHeader k).map (soName ++ ·)
+          archDecl := archDecl ++ (archParams k c).map fun q => (apfx ++ q.suffix, q.out, q.w.bits f.rsize)
+          cpDecl := cpDecl ++ (cpParams k c).map fun q => (apfx ++ q.suffix, q.out, q.w.bits f.rsize)
+          topDecl := topDecl ++ (perProcWires k c).map (fun q => (s!"p{i}{soName}" ++ q.1, q.2.bits f.rsize))
+            ++ (cpSharedWires k).map (fun q => (soName ++ q.1, q.2.bits f.rsize))
+        j := j + 1
+      let io := 3 * p.n + 3 * p.m
+      match find s!"a{i}" with
+      | none => t := { t with skips := t.skips.push s!"a{i} not parsed" }
+      | some am =>
+        t := t.eqList s!"a{i} ports" (am.ports.drop (2 + io)) archExp
+        for (n, out, w) in archDecl do
+          t := t.decl am n (some (if out then .output else .input)) w
+      match find s!"p{i}" with
+      | none => if !p.links.isEmpty then t := { t with skips := t.skips.push s!"p{i} not parsed" }
+      | some pm =>
+        t := t.eqList s!"p{i} ports" (pm.ports.drop (4 + (if p.l != 0 then 5 else 0) + io)) archExp
+        for (n, out, w) in cpDecl do
+          t := t.decl pm n (some (if out then .output else .input)) w
+      match top with
+      | none => t := { t with skips := t.skips.push "bondmachine not parsed" }
+      | some tm =>
+        match instConns tm s!"a{i}_inst" with
+        | none => t := { t with diffs := t.diffs.push s!"bondmachine: no positional instance a{i}_inst" }
+        | some cs => t := t.eqList s!"a{i}_inst connections" (cs.drop (2 + io)) topExp
+        for (n, w) in topDecl do
+          t := t.decl tm n none w
+    i := i + 1
+  -- (B) shared objects: module header against its instance
+  let mut s := 0
+  for soFull in f.sos do
+    match Kind.ofName? soFull with
+    | none => t := { t with skips := t.skips.push s!"shared object {s} ({soFull}): unmodelled kind" }
+    | some k =>
+      let gseq := countBefore f.sos s soFull
+      let soName := s!"{k.short}{gseq}"
+      let attProcs := (List.range f.procs.length).filter fun pi => ((f.procs.getD pi default).links.contains s)
+      let atts : List Att := (List.range attProcs.length).map fun idx =>
+        let pi := attProcs.getD idx 0
+        ⟨pi, idx, capsOf k (f.procs.getD pi default).caps⟩
+      if atts.isEmpty then t := { t with skips := t.skips.push s!"{soName}: no processor attached" } else
+      let ms := moduleSlots k atts
+      let is := instSlots k atts
+      match find soName with
+      | none => t := { t with skips := t.skips.push s!"{soName} not parsed" }
+      | some sm => t := t.eqList s!"{soName} ports" (sm.ports.drop 2) (ms.map (modulePortName k atts))
+      match top with
+      | none => pure ()
+      | some tm =>
+        match instConns tm s!"{soName}_inst" with
+        | none => t := { t with diffs := t.diffs.push s!"bondmachine: no positional instance {soName}_inst" }
+        | some cs => t := t.eqList s!"{soName}_inst connections" (cs.drop 2) (is.map (instConnName k soName))
+      if ms != is then
+        let firstBad := (List.range (max ms.length is.length)).find? fun q => ms[q]? != is[q]?
+        let q := firstBad.getD 0
+        let showSlot (o : Option Slot) : String := match o with
+          | some x => s!"p{x.proc}.{x.role}" | none => "nothing"
+        let msg := s!"instance {soName}_inst ({is.length} connections) does not follow the port order of module {soName} ({ms.length} ports): position {q + 2} is {showSlot ms[q]?} in the module but {showSlot is[q]?} in the instance"
+        t := { t with order := t.order.push msg }
+    s := s + 1
+  pure t
+
+def finish (st : St) : List String :=
+  match st.src with
+  | none => ["N modules=0 elaborated=0 roots=", "E"]
+  | some line =>
+    match Source.ofString line with
+    | .error e => [s!"R oracle|*|cannot read the S-expression: {e}", "E"]
+    | .ok src =>
+      let r := src.check st.opq st.ext
+      let rl := r.findings.map fun f => s!"R {f.cls}|{f.modName}|{f.msg}"
+      let nl := s!"N modules={src.modules.length} elaborated={r.elaborated} roots={",".intercalate r.roots}"
+      let sl := match st.facts with
+        | none => ["S skip no-facts"]
+        | some f =>
+          let t := soTie src f
+          (t.order.toList.map fun o => s!"R port-order|bondmachine|{o}") ++
+          (t.diffs.toList.map fun d => s!"S diff {d}") ++
+          (t.skips.toList.map fun d => s!"S skip {d}") ++ [s!"S ok {t.cmp - t.diffs.size}"]
+      rl ++ [nl] ++ sl ++ ["E"]
+
+def step (st : St) (line : String) : St × List String :=
+  if line.startsWith "V " then ({ st with src := some (line.drop 2).toString }, [])
+  else if line.startsWith "M " then ({}, [line])
+  else if line.startsWith "K " then ({ st with facts := some (parseFacts (line.drop 2).toString) }, [])
+  else if line.startsWith "Q " then ({ st with opq := fields (line.drop 2).toString }, [line])
+  else if line.startsWith "X " then ({ st with ext := fields (line.drop 2).toString }, [])
+  else if line == "E" then ({}, finish st)
+  else (st, [line])
+
+def main : IO Unit := do
+  let _ ← foldStdin ({} : St) step
